@@ -55,6 +55,14 @@
 (* not change any answer, so such records are judged here in the lattice   *)
 (* frame like the others (field pl only names the placement).              *)
 (*                                                                         *)
+(* Likewise (audit round) for the scene scaled by a power of two, for a    *)
+(* direction vector multiplied by a power of two (the same ray), for other *)
+(* entry points reaching the same code and for queries made after the mesh *)
+(* was moved: none of these changes an answer, the harness undoes the      *)
+(* exact map and the record is judged here unchanged.  A mesh may carry    *)
+(* vertices no face refers to: they count for the nearest-vertex query     *)
+(* (which answers over the vertex list) and for nothing else.              *)
+(*                                                                         *)
 (* The harness sends integers only.  A float the implementation returned   *)
 (* is snapped to the nearest fraction with a bounded denominator and the   *)
 (* residual is tested; a value that does not snap arrives with a           *)
